@@ -51,6 +51,8 @@ def small_elem(rng, kind, i=0):
     if et == "pos":
         return str(rng.randint(0, 15))
     if et == "kv":
+        if rng.random() < 0.02:
+            return rng.choice(["a,", ",1", "a", "b,", ",x"])       # malformed pair: must be refused
         if kind == "mp":
             return rng.choice(["a", "b", "c", "k1"]) + "," + str(rng.randint(0, 5))
         if kind == "mm":
@@ -70,6 +72,18 @@ def gen_arg(rng, kind):
         a.sep = rng.choice([";", ":", "|", "/", "#"])
     if c in ("map", "multimap", "umap") and rng.random() < 0.3:
         a.sep = rng.choice(["|", "/", "#", ":"])
+    if c in ("map", "multimap", "umap"):
+        if rng.random() < 0.35:
+            a.pairfmt = rng.choice([p for p in ("=", ":", "-", "={}", ":[]", "=<>", "-()", "/()") if (a.sep or ";") not in p])
+        if kind in ("mp", "um") and rng.random() < 0.3:
+            a.fmtkey.append(rng.choice(["upper", "lower"]))
+        if kind in ("mm", "um") and rng.random() < 0.3:
+            a.fmtval.append(rng.choice(["upper", "lower"]))
+    if kind in ("bs", "vb", "db", "ca", "ar", "vi", "li", "si", "qu", "pq") and rng.random() < 0.2:
+        # a format on numeric elements changes nothing, but the library takes a separate path when a format is set
+        a.formats.append(rng.choice(["upper", "lower"]))
+    if kind in ("ca", "ar") and rng.random() < 0.2:
+        a.posformats.append((rng.randrange(4), rng.choice(["upper", "lower"])))
     if kind in CLEARABLE and rng.random() < 0.3:
         a.clear = True
     if kind in SORTABLE and rng.random() < 0.3:
@@ -108,7 +122,10 @@ def gen_arg(rng, kind):
         m = rng.choice([0, 0, 1, 2])
         its = []
         for _ in range(m):
-            k, v = small_elem(rng, kind).split(",")
+            e = small_elem(rng, kind)
+            while e.count(",") != 1 or "" in e.split(","):
+                e = small_elem(rng, kind)
+            k, v = e.split(",")
             its.append(k + "\x1e" + v)
         if kind != "mm":
             seen, uniq = set(), []
@@ -190,6 +207,7 @@ def model(a, elems_by_use):
             k, v = e.split(",")
             if not k or not v:
                 raise Reject("pair-format")
+            k, v = fmt_kv(a.fmtkey, k), fmt_kv(a.fmtval, v)
             if kind == "mp":
                 argh.conv("int", v)
             if kind == "mm":
@@ -235,6 +253,21 @@ def model(a, elems_by_use):
     if kind == "pq":
         return sorted(cur, reverse=True)
     return cur
+
+
+def fmt_kv(fmts, text):
+    for f in fmts:
+        text = "".join((ch.upper() if "a" <= ch <= "z" else ch) if f == "upper" else (ch.lower() if "A" <= ch <= "Z" else ch) for ch in text)
+    return text
+
+
+def pair_spelling(a, e):
+    """'k,v' of the abstract element in the configured pair format"""
+    if not a.pairfmt or e.count(",") != 1:
+        return e
+    k, v = e.split(",")
+    t = k + a.pairfmt[0] + v
+    return a.pairfmt[1] + t + a.pairfmt[2] if len(a.pairfmt) == 3 else t
 
 
 def canon(a, dump):
@@ -290,7 +323,7 @@ def spell_cut(rng, a, cut, noise):
     words = []
     sep = a.sepchar()
     for ck, ch in cut:
-        text = sep.join(ch)
+        text = sep.join(pair_spelling(a, e) for e in ch)
         if noise and len(ch) >= 1 and cat_of(a.slot) not in ("map", "multimap", "umap"):
             # empty elements are dropped by the tokenizer (documented for lists): 1,,2 / leading / trailing separator
             r = rng.random()
@@ -475,6 +508,7 @@ def judge(c, results, rep):
 
 def opts(a):
     return ",".join(o for o in ("clear", "sort", "unique", "uniqueerr", "multi", "unset") if getattr(a, o)) + (",sep=" + a.sep if a.sep else "") + \
+        (",pairfmt=" + a.pairfmt if a.pairfmt else "") + "".join(",fmtkey=" + f for f in a.fmtkey) + "".join(",fmtval=" + f for f in a.fmtval) + \
         "".join(",fmt=" + f for f in a.formats) + "".join(",fmtpos=%d:%s" % (i, f) for i, f in a.posformats) + \
         "".join(",%s=%s" % (c[0], ":".join(str(x) for x in c[1:-1])) for c in a.checks)
 
